@@ -263,7 +263,7 @@ func buildOne(r *rng.R, slot int) *sharedObj {
 		// a long-running parse: a big SML text
 		var sb strings.Builder
 		sb.WriteString("S6F11 W H->E big\n<L\n")
-		for i := 0; i < 150; i++ {
+		for i := 0; i < 60; i++ {
 			if i%10 == 0 {
 				fmt.Fprintf(&sb, "  <L <U4 %d> <A \"row %d\"> <F8 %d.5> <BOOLEAN T F> v%d>\n", i, i, i, i)
 			} else {
@@ -486,7 +486,7 @@ func raceCanary() {
 }
 
 func runC17(c *ctx) {
-	c.Rule = "race-detector build of a multi-goroutine driver: a pool of 200 shared objects (templates with variables and ellipses, messages, control messages, encoded byte strings, SML texts, shared fill maps) whose sequential reference results are computed afterwards on independently constructed twins (nothing is asked of a shared object before the concurrent phase, so lazily initialised state is first touched under concurrency); 32 (thorough 64) goroutines hammer a few hot objects per round with String, ToBytes, Variables, Size, Header, SystemBytes, FillVariables (shared read-only map and private maps), ellipsis expansion, SetWaitBit, SetSessionIDAndSystemBytes, Type, response constructors, hsms.Parse of shared buffers (one nested 600 lists deep that all goroutines decode at the same moment, one with 3600 items) and sml.Parse (incl. a 150-row text), a set of 13 constructor/fill calls and 7 texts that must be refused alone and in company, with Gosched jitter, and every 32nd operation builds, prints, expands, parses and fills an object whose variable names the process has never seen (checked against the model); 4 (thorough 15) rounds with different seeds. Oracle: no WARNING: DATA RACE block in the race log whose stacks include a frame of the library, and every call returns what the same call returned in the sequential pre-pass; a deliberately racy canary must be reported or the run is inconclusive. non-trivial = a call that started while another goroutine's call on the same object was in flight; distinct by (operation, object, round)"
+	c.Rule = "race-detector build of a multi-goroutine driver: a pool of 200 shared objects (templates with variables and ellipses, messages, control messages, encoded byte strings, SML texts, shared fill maps) whose sequential reference results are computed afterwards on independently constructed twins (nothing is asked of a shared object before the concurrent phase, so lazily initialised state is first touched under concurrency); 32 (thorough 64) goroutines hammer a few hot objects per round with String, ToBytes, Variables, Size, Header, SystemBytes, FillVariables (shared read-only map and private maps), ellipsis expansion, SetWaitBit, SetSessionIDAndSystemBytes, Type, response constructors, hsms.Parse of shared buffers (one nested 600 lists deep that all goroutines decode at the same moment, one with 3600 items) and sml.Parse (incl. a 60-row text), a set of 13 constructor/fill calls and 7 texts that must be refused alone and in company, with Gosched jitter, and every 32nd operation builds, prints, expands, parses and fills an object whose variable names the process has never seen (checked against the model); 4 (thorough 15) rounds with different seeds. Oracle: no WARNING: DATA RACE block in the race log whose stacks include a frame of the library, and every call returns what the same call returned in the sequential pre-pass; a deliberately racy canary must be reported or the run is inconclusive. non-trivial = a call that started while another goroutine's call on the same object was in flight; distinct by (operation, object, round)"
 	c.Assume = []string{"the race detector judges the executions that happened, not all interleavings", "GORACE log_path is set by bin/check"}
 
 	logPrefix := ""
@@ -505,6 +505,7 @@ func runC17(c *ctx) {
 	goroutines := c.pick(32, 64)
 	opsPer := c.pick(2000, 15000)
 	var overlapping, calls, mismatches, compared, freshOps int64
+	spent := map[string]int64{} // summed call durations per kind of shared object (where the driver's time goes)
 	for round := 0; round < rounds; round++ {
 		seed := c.rnd.U64()
 		r := rng.New(seed)
@@ -526,7 +527,7 @@ func runC17(c *ctx) {
 			case "deep-bytes":
 				deep = o // and every goroutine decodes the deep nest several times right after
 			}
-			if strings.HasPrefix(o.special, "long-") || o.special == "deep-bytes" {
+			if strings.HasPrefix(o.special, "long-") || o.special == "deep-bytes" || o.special == "big-list" {
 				long = append(long, o) // expensive calls: each goroutine makes one now and then, so that a few are always in flight
 				continue
 			}
@@ -635,6 +636,11 @@ func runC17(c *ctx) {
 			freshOps += int64(lc.fresh)
 			for _, cl := range lc.calls {
 				perObj[cl.obj] = append(perObj[cl.obj], cl)
+				k := pool[cl.obj].kind
+				if sp := pool[cl.obj].special; sp != "" {
+					k = sp
+				}
+				spent[k] += cl.t1 - cl.t0
 			}
 			for _, v := range lc.varies {
 				c.Violation("C17/result-varies-between-calls", v, c17Case{Seed: seed, Round: round})
@@ -675,6 +681,9 @@ func runC17(c *ctx) {
 				compared++
 			}
 		}
+	}
+	for k, ns := range spent {
+		c.ClassN("call-milliseconds/"+k, ns/1e6)
 	}
 	c.ClassN("operations-compared-with-sequential-twin", compared)
 	c.ClassN("fresh-name-constructions-under-concurrency", freshOps)
